@@ -40,7 +40,7 @@ States   == {"absent", "ok", "syntax", "utf8", "rule", "unwparent", "unwdir"}
 OwnFault == {"syntax", "utf8", "rule"}          \* the file itself cannot be read / parsed / transformed
 UnwFault == {"unwparent", "unwdir"}             \* its destination cannot be written
 Roots    == {"in", "sub", "dlua", "file"}       \* input = in | in/sub | in/d.lua (directories) | one file
-OutForms == {"none", "same", "exfile", "exdir", "newdir", "newext"}
+OutForms == {"none", "same", "exfile", "exdir", "exdirdot", "newdir", "newext"}   \* exdirdot: an EXISTING directory whose name has an extension
 Configs  == {"empty", "default", "rootskip", "rootapply"}
 
 \* A case is a record [root, fi, st, out, ff, cfg]:
@@ -68,12 +68,13 @@ OutPath(c) ==
     [] c.out = "same"   -> InputPath(c)
     [] c.out = "exfile" -> <<"outf.lua">>
     [] c.out = "exdir"  -> <<"out">>
+    [] c.out = "exdirdot" -> <<"out.v2">>
     [] c.out = "newdir" -> <<"fresh", "nested">>
     [] c.out = "newext" -> <<"new.lua">>
 InPlace(c) == c.out \in {"none", "same"}
-OutIsDir(c)  == c.out = "exdir" \/ (c.out = "same" /\ c.root # "file")
+OutIsDir(c)  == c.out \in {"exdir", "exdirdot"} \/ (c.out = "same" /\ c.root # "file")
 OutIsFile(c) == c.out = "exfile" \/ (c.out = "same" /\ c.root = "file")
-OutHasExt(c) == c.out \in {"exfile", "newext"} \/ (c.out = "same" /\ c.root \in {"file", "dlua"})
+OutHasExt(c) == c.out \in {"exfile", "newext", "exdirdot"} \/ (c.out = "same" /\ c.root \in {"file", "dlua"})
 
 \* ------------------------------------------------------------------ destination contract
 \* (transcribed from WorkerTree::collect_work; this is what the documentation of `darklua process` promises)
@@ -129,6 +130,7 @@ PreExisting(c) ==
   LET base == CASE c.out = "exfile" -> {F(<<"outf.lua">>, "pre")}
                 [] c.out = "exdir"  -> {F(<<"out", "keep.txt">>, "pre"), F(<<"out", "stale.lua">>, "pre"),
                                         F(<<"out", "a.lua">>, "pre"), F(<<"out", "sub", "b.luau">>, "pre")}
+                [] c.out = "exdirdot" -> {F(<<"out.v2", "keep.txt">>, "pre")}
                 [] OTHER -> {} IN
   LET bl == Blockers(c) IN
   \* a blocker takes the place of a pre-existing file it collides with
